@@ -23,6 +23,10 @@ pub struct GenCfg {
     pub customs: bool,
     pub names: bool,
     pub producers: bool,
+    /// name section = module name + function names only
+    pub names_simple: bool,
+    /// add `.debug_*` custom sections with junk payloads (only meaningful when DWARF generation is off)
+    pub junk_debug: bool,
     pub dead_code: bool,
     pub start: bool,
     /// imported 64-bit memories (kept switchable: D2)
@@ -53,6 +57,8 @@ impl GenCfg {
             customs: false,
             names: false,
             producers: false,
+            names_simple: false,
+            junk_debug: false,
             dead_code: true,
             start: true,
             import_mem64: false,
@@ -79,6 +85,8 @@ impl GenCfg {
             customs: true,
             names: true,
             producers: true,
+            names_simple: false,
+            junk_debug: false,
             dead_code: true,
             start: true,
             import_mem64: true,
@@ -1319,9 +1327,14 @@ pub fn gen_module(rng: &mut Rng, cfg: &GenCfg) -> Generated {
             let name = rng.pick(&["", "x", "linking", "target_features", "dylink.0", ".debug", "names", "producer", "sourceMappingURL", "x"]).to_string();
             let len = *rng.pick(&[0usize, 1, 5, 200]);
             let data: Vec<u8> = (0..len).map(|_| rng.next() as u8).collect();
-            if name.starts_with(".debug") {
-                return;
-            }
+            let name = if name.starts_with(".debug") {
+                if !cfg.junk_debug {
+                    return;
+                }
+                rng.pick(&[".debug_info", ".debug_line", ".debug", ".debug_foo"]).to_string()
+            } else {
+                name
+            };
             module.section(&CustomSection { name: Cow::Owned(name), data: Cow::Owned(data) });
             n_customs += 1;
         }
@@ -1374,8 +1387,8 @@ pub fn gen_module(rng: &mut Rng, cfg: &GenCfg) -> Generated {
     }
     if cfg.names && rng.chance(2, 3) {
         let mut names = NameSection::new();
-        if rng.chance(1, 2) {
-            names.module(&rand_name(rng));
+        if rng.chance(1, 2) || cfg.names_simple {
+            names.module(&format!("mod_{}", rand_name(rng)));
         }
         let mut fm = NameMap::new();
         let mut any = false;
@@ -1388,6 +1401,10 @@ pub fn gen_module(rng: &mut Rng, cfg: &GenCfg) -> Generated {
         if any {
             names.functions(&fm);
         }
+        if cfg.names_simple {
+            module.section(&names);
+            custom(&mut module, rng);
+        } else {
         // locals
         let mut im = IndirectNameMap::new();
         let mut anyl = false;
@@ -1434,6 +1451,7 @@ pub fn gen_module(rng: &mut Rng, cfg: &GenCfg) -> Generated {
         simple!(n_data, data);
         module.section(&names);
         custom(&mut module, rng);
+        }
     }
     if cfg.producers && rng.chance(1, 2) {
         let mut p = ProducersSection::new();
